@@ -52,6 +52,15 @@ type Commit struct {
 	Data           [][]byte // []entry data
 	CommittedIndex uint64
 	fromReplay     bool
+	replayDone     chan struct{} // replay commit only: closed by ReplayApplied
+}
+
+// ReplayApplied tells the raft node that the entries of its restart replay have been applied to the shard.
+func (c *Commit) ReplayApplied() {
+	if c != nil && c.replayDone != nil {
+		close(c.replayDone)
+		c.replayDone = nil
+	}
 }
 
 type RaftNode struct {
@@ -103,6 +112,21 @@ type RaftNode struct {
 	Identity string // db_ptId
 
 	tolerateStartTime atomic.Int64
+
+	// replayDone is non-nil while a restart replay has been handed out through ReplayC and not been applied yet
+	replayDone chan struct{}
+}
+
+// WaitReplayApplied returns once the entries of the restart replay (if any) have been applied. Entries committed
+// after the restart must not be applied before: the replay would re-apply older writes of the same points on top.
+func (n *RaftNode) WaitReplayApplied() {
+	if n.replayDone == nil {
+		return
+	}
+	select {
+	case <-n.replayDone:
+	case <-n.ctx.Done():
+	}
 }
 
 func StartNode(store *raftlog.RaftDiskStorage, nodeId uint64, database string, id uint64,
@@ -701,13 +725,16 @@ func (n *RaftNode) replay(sp raftpb.Snapshot) error {
 	}
 
 	if len(data) > 0 {
+		done := make(chan struct{})
 		select {
 		case n.ReplayC <- &Commit{
 			Database:   n.database,
 			PtId:       GetPtId(n.id),
 			Data:       data,
 			fromReplay: true,
+			replayDone: done,
 		}:
+			n.replayDone = done
 		case <-n.ctx.Done():
 			return nil
 		}
